@@ -695,7 +695,7 @@ func (o *String) UnmarshalBinary(data []byte) error {
 		return nil
 	}
 
-	if size > int64(len(data)) {
+	if size > int64(len(data)-1-offset) {
 		return errors.New("invalid ugo.String data size")
 	}
 
@@ -741,7 +741,7 @@ func (o *Bytes) UnmarshalBinary(data []byte) error {
 		return nil
 	}
 
-	if size > int64(len(data)) {
+	if size > int64(len(data)-1-offset) {
 		return errors.New("invalid ugo.Bytes data size")
 	}
 
@@ -804,7 +804,7 @@ func (o *Array) UnmarshalBinary(data []byte) error {
 		return nil
 	}
 
-	if size > int64(len(data)) {
+	if size > int64(len(data)-1-offset) {
 		return errors.New("invalid ugo.Array data size")
 	}
 
@@ -888,7 +888,7 @@ func (o *Map) UnmarshalBinary(data []byte) error {
 		return nil
 	}
 
-	if size > int64(len(data)) {
+	if size > int64(len(data)-1-offset) {
 		return errors.New("invalid ugo.Map data size")
 	}
 
@@ -1042,7 +1042,7 @@ func (o *CompiledFunction) UnmarshalBinary(data []byte) error {
 		return nil
 	}
 
-	if size > int64(len(data)) {
+	if size > int64(len(data)-1-offset) {
 		return errors.New("invalid ugo.CompiledFunction data size")
 	}
 
